@@ -44,6 +44,10 @@ def deep_crash(cls, prog, out, ex):
 def deep_time(cls, prog, out, ex):
     return cls == 'deep-time'
 
+@rule("KF-SIMILAR-OP-INDICES", "the `similar` 2.4.0 dependency reports wrong line indices for a deletion followed (after an unchanged line) by an insertion, e.g. `  x()\\n  x()\\nx()\\n` -> `x()\\nx()\\nx()\\n`: its own unified diff gets the impossible hunk header `@@ -1 +3 @@` (rejected by patch), and the JSON mismatch built from the same operations places the insertion at the wrong original line, so neither output reconstructs the formatted file")
+def similar_idx(cls, prog, out, ex):
+    return cls in ('unified-malformed', 'json-does-not-reconstruct', 'unified-does-not-reconstruct')
+
 @rule("KF-UNARY-COMMENT", "a comment on its own line between a unary operator and its operand is glued to the operator (`- \\n--c\\na` -> `---c`): the minus becomes part of the comment")
 def unary_comment(cls, prog, out, ex):
     return re.search(r'(-|not|#|~) \n--', prog) is not None and out is not None and re.search(r'---c\d+x', out) is not None
